@@ -272,11 +272,18 @@ fn gen_partial(rng: &mut Rng, pairs: usize, off_random: usize, cases: &mut Vec<C
         let (wa, wb) = two_weights(rng);
         // neighbours in the same row: complete with weight a (so that the pair sits inside a run), or absent
         let neigh = rng.usize(3);
+        let sibling = rng.chance(1, 3);
         for p in pats {
             let mut items: Items = vec![];
             for (i, cb) in combos.iter().enumerate() {
                 if p[i] != 0 {
                     items.push((*cb, if p[i] == 1 { wa } else { wb }));
+                }
+            }
+            // the sibling rank pair (same two ranks, other suitedness) complete, every third time
+            if kind != 0 && sibling {
+                for cb in cell_combos(3 - kind, h, k) {
+                    items.push((cb, wb));
                 }
             }
             if neigh > 0 {
@@ -339,6 +346,23 @@ fn random_items(rng: &mut Rng) -> Items {
 pub fn record(args: &Args, mut out: Out) -> usize {
     let mut rng = Rng::new(args.num("seed", 1));
     let mut cases: Vec<Case> = vec![];
+    // before anything else in this process: single rank-pair tokens written low card first ('2As', '7Ko', ...) are parsed
+    // and expanded, as a user's earlier calls might have done; nothing printed or split later may depend on that
+    if args.num("preamble", 1) == 1 {
+        let rk = crate::proj::RANK_CH;
+        let mut n = 0usize;
+        for h in 0..13 {
+            for k in 0..h {
+                for so in ['s', 'o'] {
+                    let t = format!("{}{}{}", rk[h], rk[k], so);
+                    if let Some(Some(r)) = guarded(move || t.parse::<HandRange>().ok()) {
+                        n += r.card_pairs().len();
+                    }
+                }
+            }
+        }
+        eprintln!("preamble: reversed single tokens parsed, {} combos", n);
+    }
     let fam = args.get("family").unwrap_or("all").to_string();
     let has = |f: &str| fam == "all" || fam.split(',').any(|x| x == f);
     if has("rows") {
